@@ -133,7 +133,32 @@ def number_conc(digs):
 def req_task(p, cfg, rec):
     cmds, delays = cfg['cmds'], cfg['delays']
     iw, vw = 8, 16
-    trace, vars_, numbers, pos, nchars = run_req(cmds, delays, rec=rec, iw=iw, vw=vw)
+    try:
+        trace, vars_, numbers, pos, nchars = run_req(cmds, delays, rec=rec, iw=iw, vw=vw)
+    except core.Unsupported as e:
+        if 'data dependent' not in str(e):
+            raise
+        # for well-formed commands the decoder's handshake must not depend on WHICH hex digit is sent; when it does, the symbolic
+        # run cannot go on - every digit value is then tried concretely, position by position (the other digits fixed), and the
+        # decoded events are compared with the command text: a digit that is treated differently from the others shows up here
+        slots = [(ci, k) for ci, (kind, nd) in enumerate(cmds) if isinstance(nd, int) for k in range(nd)]
+        bad = None
+        tried = 0
+        for fill in '5A':
+            for (ci, k) in slots:
+                for ch in '0123456789ABCDEF':
+                    values = {'d%d_%d' % (c2, k2): ord(fill) for (c2, k2) in slots}
+                    values['d%d_%d' % (ci, k)] = ord(ch)
+                    tr, _, nums, ps, nch = run_req(cmds, delays, values=values, iw=iw, vw=vw)
+                    exp = expected_events(cmds, [digits_of(values, c3, nd3) for c3, (kind3, nd3) in enumerate(cmds)], iw, vw)
+                    got = observed_events(tr)
+                    tried += 1
+                    if got != exp and bad is None:
+                        bad = {'commands': render(cmds, values), 'expected_events': exp, 'observed_events': got}
+        p.res['transitions'] += tried
+        p.structural('the handshake became data dependent (%s): every hex digit in every position decodes to the transmitted number (%d concrete command strings)'
+                     % (e, tried), bad is None, detail=bad)
+        return
     p.assumptions = list(ctx.assumptions)
     p.res['states'] += 1
     p.res['transitions'] += len(trace)
